@@ -26,6 +26,40 @@ class OddHex:
 
 
 _FMT = re.compile(r"%0(\d+)x")
+_TOK = re.compile(r"\x00SYMHEX(\d+)\x00")
+
+
+class HexToken(str):
+    """a real str standing in for symbolic hex text (needed where Python demands an exact str, e.g. __format__)"""
+
+
+def hex_token(h):
+    c = Ctx.cur
+    reg = c.data.setdefault("hex_tokens", {})
+    n = len(reg) + 1
+    reg[n] = h
+    return HexToken("\x00SYMHEX%d\x00" % n)
+
+
+def _detok(x):
+    """SymHex / OddHex for a token string (or its ascii bytes); x itself otherwise"""
+    if isinstance(x, (str, bytes)) and Ctx.cur is not None:
+        s = x if isinstance(x, str) else x.decode("latin-1")
+        m = _TOK.fullmatch(s)
+        if m:
+            return Ctx.cur.data.get("hex_tokens", {}).get(_real_int(m.group(1)), x)
+        if "\x00SYMHEX" in s:
+            parts = []
+            pos = 0
+            for mm in _TOK.finditer(s):
+                if mm.start() > pos:
+                    parts.append(s[pos:mm.start()])
+                parts.append(Ctx.cur.data.get("hex_tokens", {}).get(_real_int(mm.group(1))))
+                pos = mm.end()
+            if pos < len(s):
+                parts.append(s[pos:])
+            return sym_join("", parts)
+    return x
 
 
 def sym_mod(a, b):
@@ -50,7 +84,7 @@ def sym_mod(a, b):
 
 
 def sym_join(sep, xs):
-    xs = list(xs)
+    xs = [_detok(x) for x in xs]
     if any(isinstance(x, (SymBytes, SymHex, OddHex)) for x in xs):
         if len(sep) != 0:
             raise EngineUnsupported("join with a non-empty separator")
@@ -73,6 +107,7 @@ def sym_join(sep, xs):
 
 # ------------------------------------------------------------ int / isinstance / pow
 def sym_int(x=0, base=None):
+    x = _detok(x)
     if isinstance(x, SymInt):
         return x
     if isinstance(x, SymBool):
@@ -127,6 +162,7 @@ def sym_hexlify(b):
 
 
 def sym_unhexlify(h):
+    h = _detok(h)
     if isinstance(h, SymHex):
         return h.b
     if isinstance(h, OddHex):
@@ -335,6 +371,7 @@ class sym_bytes(metaclass=_BytesMeta):
 
     @staticmethod
     def fromhex(h):
+        h = _detok(h)
         if isinstance(h, SymHex):
             return h.b
         if isinstance(h, OddHex):
